@@ -34,7 +34,17 @@ var Solvers = []SolverCfg{
 }
 
 // Script of an obligation.
-func (o *Obligation) Script(getValues []*Term) string {
+func (o *Obligation) Script(getValues []*Term) string { return o.script(getValues, false) }
+
+// ScriptQF is the query with every quantified hypothesis replaced by its heuristic ground instances.
+// Dropping hypotheses is sound for "unsat"; a "sat" answer of this weaker query is not a refutation.
+func (o *Obligation) ScriptQF() string { return o.script(nil, true) }
+
+var scriptMu sync.Mutex
+
+func (o *Obligation) script(getValues []*Term, qfOnly bool) string {
+	scriptMu.Lock()
+	defer scriptMu.Unlock()
 	u := o.Unit
 	// hypotheses guarded by a condition that contradicts this obligation's path condition are irrelevant
 	neg := map[int]bool{}
@@ -71,7 +81,17 @@ func (o *Obligation) Script(getValues []*Term) string {
 	hyps = append(hyps, o.PC)
 	goal := u.C.Skolemize(o.Goal)
 	if o.Expect != "sat" {
-		hyps = append(hyps, u.C.instances(hyps, goal)...)
+		inst := u.C.instances(hyps, goal)
+		if qfOnly {
+			var qf []*Term
+			for _, h := range hyps {
+				if !h.quant {
+					qf = append(qf, h)
+				}
+			}
+			hyps = qf
+		}
+		hyps = append(hyps, inst...)
 	}
 	return u.C.Script(hyps, goal, getValues)
 }
@@ -181,6 +201,7 @@ func Discharge(obls []*Obligation, dir string, timeoutS, workers int) []Result {
 			continue
 		}
 		script := o.Script(nil)
+		hasQuantHyp := strings.Contains(script, "(forall ")
 		wg.Add(1)
 		sem <- struct{}{}
 		go func() {
@@ -188,6 +209,15 @@ func Discharge(obls []*Obligation, dir string, timeoutS, workers int) []Result {
 			defer func() { <-sem }()
 			// most obligations are easy: one solver with a short budget first, the full race only if undecided
 			v := RunQuery(script, dir, fmt.Sprintf("%sq%04d", pfx, i), 2, Solvers[:1])
+			if v.Status != "sat" && v.Status != "unsat" && o.Expect == "unsat" && hasQuantHyp {
+				// quantifier-free weakening (ground instances only): an unsat answer is conclusive
+				vq := RunQuery(o.ScriptQF(), dir, fmt.Sprintf("%sq%04dqf", pfx, i), timeoutS/2+1, Solvers)
+				if vq.Status == "unsat" {
+					vq.Solver += " (ground instances)"
+					os.Remove(vq.Script)
+					v = vq
+				}
+			}
 			if v.Status != "sat" && v.Status != "unsat" {
 				v = RunQuery(script, dir, fmt.Sprintf("%sq%04d", pfx, i), timeoutS, Solvers)
 			}
